@@ -52,9 +52,9 @@ variable (P : Prog) (env : Nat → Nat)
 /-- the completeness invariant (see the file header). -/
 structure InvC (s : St) : Prop where
   finalClosed : ∀ x w, s.final.lookup x = some w →
-    ∀ c ∈ callees env (P.node x).body, (s.final.lookup c).isSome = true
+    ∀ c ∈ callees env ρ0 (P.node x).body, (s.final.lookup c).isSome = true
   cacheClosed : ∀ y e, s.cache.lookup y = some e →
-    ∀ c ∈ callees env (P.node y).body, Memo s c
+    ∀ c ∈ callees env ρ0 (P.node y).body, Memo s c
   headsC : ∀ y e, s.cache.lookup y = some e → ∀ k ∈ s.stack, Via P env s.stack y k → k ∈ e.heads
   headsHead : ∀ y e, s.cache.lookup y = some e → ∀ k ∈ e.heads, isHead s.prov k = true
   cacheFb : ∀ y e, s.cache.lookup y = some e → Reach P env y y → IsFb P y →
@@ -149,7 +149,7 @@ theorem inv_provC {s : St} {c w : Nat} (hC : InvC P env s) :
     older memos stay complete under the substitution. -/
 theorem completeC_cached (s1 : St) (j : Nat) (rest : List Nat) (v' : Nat) (hs' : List Nat)
     (hI : InvF P env s1) (hC : InvC P env s1) (hst : s1.stack = j :: rest)
-    (hmemo : ∀ c ∈ callees env (P.node j).body, Memo s1 c)
+    (hmemo : ∀ c ∈ callees env ρ0 (P.node j).body, Memo s1 c)
     (hhh : ∀ k ∈ hs', isHead s1.prov k = true)
     (hcomp : ∀ k ∈ rest, Via P env (j :: rest) j k → k ∈ hs')
     (hval : Reach P env j j → IsFb P j → v' = fallbackValue P j) :
@@ -238,7 +238,7 @@ theorem completeC_cached (s1 : St) (j : Nat) (rest : List Nat) (v' : Nat) (hs' :
 /-- a query completes with no head anywhere: everything it read is final. -/
 theorem completeC_final (s1 : St) (j : Nat) (v : Nat)
     (hC : InvC P env s1) (hc0 : s1.cache = []) (hp0 : s1.prov = [])
-    (hmemo : ∀ c ∈ callees env (P.node j).body, Memo s1 c)
+    (hmemo : ∀ c ∈ callees env ρ0 (P.node j).body, Memo s1 c)
     (hval : Reach P env j j → IsFb P j → v = fallbackValue P j) :
     InvC P env (stFinal s1 j v) := by
   have hfin : ∀ c, (s1.final.lookup c).isSome = true →
@@ -287,7 +287,7 @@ theorem completeC_final (s1 : St) (j : Nat) (v : Nat)
 theorem completeC_converged (s1 : St) (j : Nat) (rest : List Nat)
     (hC : InvC P env s1) (hst : s1.stack = j :: rest)
     (hbelow : ¬ s1.stack.tail.any (isHead s1.prov) = true)
-    (hmemo : ∀ c ∈ callees env (P.node j).body, Memo s1 c) :
+    (hmemo : ∀ c ∈ callees env ρ0 (P.node j).body, Memo s1 c) :
     InvC P env (stConv s1 j (fallbackValue P j)) := by
   have htail : s1.stack.tail = rest := by rw [hst]; rfl
   have hm : ∀ c, Memo s1 c →
